@@ -1,6 +1,6 @@
 """
 Child of the 'interpreter options' cases (props/c06.py, props/c07.py): the same public-API calls, in an interpreter
-started with other options (-bb, -O, -W error::BytesWarning) or another TZ.  Reads jobs (JSON), writes one JSON line per job.
+started with other options (-O, -OO, -X utf8, -I) or another TZ.  Reads jobs (JSON), writes one JSON line per job.
 It judges nothing: the parent compares what comes back with its reference models.  Only cardutil is imported here
 (plus the standard library), so the options act on the library, not on the harness.
 """
